@@ -147,7 +147,7 @@ def main(tier):
     RC.warm()
     n = 60 if tier == "quick" else 1500
     scns = [scenario(rng, k) for k in range(n)]
-    res = C.fork_map(worker, scns, timeout=300)
+    res = C.fork_map(worker, scns, timeout=1200)
     traces = []
     for i, (scn, r) in enumerate(zip(scns, res)):
         if r is None or isinstance(r, dict):
@@ -201,6 +201,6 @@ def replay(path):
     with open(path) as f:
         body = json.load(f)
     RC.warm()
-    r = C.fork_map(worker, [body["scenario"]], timeout=300)[0]
+    r = C.fork_map(worker, [body["scenario"]], timeout=1200)[0]
     print(json.dumps(r, indent=1)[:3000])
     return 0
